@@ -152,6 +152,9 @@ class EnumElem:
     def typ(self, t):
         return self.info.in_range(t)
 
+    def default(self):
+        return self.info.members[0]
+
 
 class IntElem:
     def wrap(self, t):
@@ -179,6 +182,9 @@ class CardElem:
 
     def typ(self, t):
         return z3.And(t >= 0, t <= 51)
+
+    def default(self):
+        return V.concrete_card(0)
 
 
 def elem_sort(elem):
@@ -240,6 +246,13 @@ class RecordElem:
             for (i, e), y in zip(comps, xs):
                 args.append(e.unwrap(y))
         return self.sort.constructor(0)(*args)
+
+    def default(self):
+        vals = {}
+        for n, comps, is_tuple in self._parts():
+            xs = [e.default() if hasattr(e, 'default') else 0 for _, e in comps]
+            vals[n] = tuple(xs) if is_tuple else xs[0]
+        return SObj(self.cls, vals, frozen=True)
 
     def typ(self, t):
         cs = []
@@ -509,6 +522,10 @@ class ClassContract:
         # API calls that should lead from a fresh object to the model state (replay of class
         # invariant counter-models: each step is checked natively against its own contract)
         self.trace = _plain(d['trace']) if 'trace' in d else None
+        # random_trace(rng) -> (fresh real object, stepper) with stepper(obj, i) -> (method qualname,
+        # kwargs) | None: random API-level histories for the bounded stand-in and for the search
+        # behind a counter-model that does not replay
+        self.random_trace = _plain(d['random_trace']) if 'random_trace' in d else None
 
 
 class Lemma:
